@@ -91,6 +91,12 @@ def floatPart (r : List Nat) : Option (List Nat) :=
   let r1 := match r with | 46 :: r' => r'.dropWhile isDec | _ => r
   (exponentPart r1).bind tailCheck
 
+/-- the `default:` arm after a leading 0: scanMantissa(8), ILLEGAL in front of 8 or 9, then `goto octal` -/
+def octalTail (r : List Nat) : Option (List Nat) :=
+  match r.dropWhile isOct with
+  | c :: t => if c = 56 ∨ c = 57 then none else tailCheck (c :: t)
+  | [] => tailCheck []
+
 /-- MODEL: lexer.go `scan` (case '.', case digit) + `scanNumericLiteral`: the rest after the NUMBER token, none = ILLEGAL -/
 def scanModel (s : List Nat) : Option (List Nat) :=
   match s with
@@ -102,34 +108,32 @@ def scanModel (s : List Nat) : Option (List Nat) :=
         (match r1 with | h :: r2 => if isHex h then tailCheck (r2.dropWhile isHex) else none | [] => none)
       else if x = 46 then floatPart r
       else if isE x then (exponentPart r).bind tailCheck
-      else
-        let r2 := r.dropWhile isOct
-        (match r2 with | c :: _ => if c = 56 ∨ c = 57 then none else tailCheck r2 | [] => tailCheck r2)
+      else octalTail r
     | [] => tailCheck []
   | _ => floatPart (s.dropWhile isDec)
 
 /-- SPEC (7.8.3 + B.1.1): the longest NumericLiteral that is a prefix of the text, then "the source character immediately
     following a NumericLiteral must not be an IdentifierStart or DecimalDigit" -/
+def specExpo (r : List Nat) : List Nat :=      -- ExponentPart is taken only when complete
+  match r with
+  | e :: r1 => if isE e then
+      (match r1 with
+       | c :: d :: r' => if (c = 45 ∨ c = 43) ∧ isDec d then r'.dropWhile isDec
+                         else if isDec c then (d :: r').dropWhile isDec else r
+       | [c] => if isDec c then [] else r
+       | [] => r)
+    else r
+  | [] => r
+def specFrac (r : List Nat) : List Nat := match r with | 46 :: r' => specExpo (r'.dropWhile isDec) | _ => specExpo r
 def specLiteralEnd (s : List Nat) : List Nat :=
-  let expo (r : List Nat) : List Nat :=      -- ExponentPart is taken only when complete
-    match r with
-    | e :: r1 => if isE e then
-        (match r1 with
-         | c :: d :: r' => if (c = 45 ∨ c = 43) ∧ isDec d then r'.dropWhile isDec
-                           else if isDec c then (d :: r').dropWhile isDec else r
-         | [c] => if isDec c then [] else r
-         | [] => r)
-      else r
-    | [] => r
-  let frac (r : List Nat) : List Nat := match r with | 46 :: r' => expo (r'.dropWhile isDec) | _ => expo r
   match s with
-  | 46 :: r => expo (r.dropWhile isDec)                                    -- . DecimalDigits ExponentPart?
+  | 46 :: r => specExpo (r.dropWhile isDec)                                -- . DecimalDigits ExponentPart?
   | 48 :: x :: h :: r => if (x = 120 ∨ x = 88) ∧ isHex h then r.dropWhile isHex          -- HexIntegerLiteral
                           else if isOct x then (x :: h :: r).dropWhile isOct               -- B.1.1 0 OctalDigit+
-                          else frac (x :: h :: r)                                           -- DecimalIntegerLiteral `0`
-  | 48 :: x :: r => if isOct x then (x :: r).dropWhile isOct else frac (x :: r)
-  | 48 :: r => frac r
-  | _ => frac (s.dropWhile isDec)
+                          else specFrac (x :: h :: r)                                       -- DecimalIntegerLiteral `0`
+  | 48 :: x :: r => if isOct x then (x :: r).dropWhile isOct else specFrac (x :: r)
+  | 48 :: r => specFrac r
+  | _ => specFrac (s.dropWhile isDec)
 
 def scanSpec (s : List Nat) : Option (List Nat) := tailCheck (specLiteralEnd s)
 
